@@ -208,6 +208,17 @@ func main() {
 		p := mustProp(c.Prop)
 		env.Record = env.Record || cmd == "exec"
 		testHang(c.Run)
+		// the cases this one needs to have been executed before it in the same process (they are functions of seed and index)
+		for _, hi := range c.History {
+			ht := c.HistoryTier
+			if ht == "" {
+				ht = "quick"
+			}
+			if _, infra := props.Execute(p, props.NewCase(p, c.Seed, hi, ht), env); infra != nil {
+				emit(line{T: "infra", Msg: "process history: " + infra.Error()})
+				os.Exit(2)
+			}
+		}
 		res, infra := props.Execute(p, c, env)
 		if infra != nil {
 			emit(line{T: "infra", Msg: infra.Error()})
